@@ -1,6 +1,7 @@
 package props
 
 import (
+	"context"
 	"errors"
 	"fmt"
 	"regexp"
@@ -21,7 +22,7 @@ type mnode struct {
 	Name     string            // module node
 	Children []*mnode          // module node
 	Twice    bool              // module node: the option is built twice from the same entry slice, the second one is used
-	Leaf     string            // "", add, remove, removeKeyed, nil, gate
+	Leaf     string            // "", add, remove, removeKeyed, nil, gate, custom
 	Gate     godi.ModuleOption // gate leaf: an entry written by the harness that registers nothing
 	Reg      int               // index into the registration list (add)
 	T        int               // type id (remove*)
@@ -40,8 +41,48 @@ type rmKey string
 // module and directly, the very same value.
 var rmKeys = []any{"a", "a", "b", rmKey("a"), "", 7}
 
+// Errors of hand-written module entries (ModuleOption is a plain func type anybody may implement):
+// a sentinel, a sentinel wrapped with %w, a typed error, a wrapped standard-library sentinel.
+var errCustomEntry = errors.New("custom entry failed")
+
+type customEntryErr struct{ Code int }
+
+func (e *customEntryErr) Error() string { return fmt.Sprintf("custom entry error %d", e.Code) }
+
+var theCustomEntryErr = &customEntryErr{Code: 7}
+
+func customEntryError(kind int) error {
+	switch kind {
+	case 1:
+		return errCustomEntry
+	case 2:
+		return fmt.Errorf("loading plug-in: %w", errCustomEntry)
+	case 3:
+		return theCustomEntryErr
+	case 4:
+		return fmt.Errorf("plug-in timed out: %w", context.DeadlineExceeded)
+	}
+	return nil
+}
+
+// customCauseReachable: the error of a hand-written entry is still reachable through errors.Is/As.
+func customCauseReachable(err error, kind int) bool {
+	switch kind {
+	case 1, 2:
+		return errors.Is(err, errCustomEntry)
+	case 3:
+		var ce *customEntryErr
+		return errors.As(err, &ce) && ce == theCustomEntryErr
+	case 4:
+		return errors.Is(err, context.DeadlineExceeded)
+	}
+	return true
+}
+
 func (n *mnode) String() string {
 	switch n.Leaf {
+	case "custom":
+		return fmt.Sprintf("custom(add#%d,err%d)", n.Reg, n.KeyKind)
 	case "add":
 		return fmt.Sprintf("add#%d", n.Reg)
 	case "remove":
@@ -106,6 +147,15 @@ func genTree(rt *rapid.T, depth int, regs *[]kit.Reg) *mnode {
 			n.Children = append(n.Children, &mnode{Leaf: "addnil", T: rapid.IntRange(0, 2).Draw(rt, "nilLife")})
 		case c == 2:
 			n.Children = append(n.Children, &mnode{Leaf: "nil"})
+		case c == 4 && rapid.IntRange(0, 2).Draw(rt, "customEntry") == 0:
+			// a hand-written entry: registers one service through the collection it is given (or nothing)
+			// and then reports an error of its own (or none)
+			cn := &mnode{Leaf: "custom", Reg: -1, KeyKind: rapid.IntRange(0, 4).Draw(rt, "customErr")}
+			if rapid.IntRange(0, 1).Draw(rt, "customAdds") == 0 {
+				*regs = append(*regs, kit.GenLooseReg(rt, len(*regs), true))
+				cn.Reg = len(*regs) - 1
+			}
+			n.Children = append(n.Children, cn)
 		case c == 3:
 			n.Children = append(n.Children, &mnode{Leaf: rapid.SampledFrom([]string{"remove", "removeKeyed"}).Draw(rt, "rmkind"), T: rapid.SampledFrom(c17Types).Draw(rt, "rmT"), KeyKind: rapid.IntRange(0, len(rmKeys)-1).Draw(rt, "rmKey")})
 		default:
@@ -140,6 +190,16 @@ func (n *mnode) option(w *kit.World) godi.ModuleOption {
 		return godi.AddTransient(nil)
 	case "gate":
 		return n.Gate
+	case "custom":
+		reg, kind := n.Reg, n.KeyKind
+		return func(c godi.Collection) error {
+			if reg >= 0 {
+				if err := w.Register(c, &w.Cfg.Regs[reg]); err != nil {
+					return err
+				}
+			}
+			return customEntryError(kind)
+		}
 	}
 	if n.optFor == w && n.opt != nil {
 		return n.opt // the same module value, included once more
@@ -251,6 +311,7 @@ func propC20Modules(col *evid.Collector) func(rt *rapid.T) {
 		}
 		var errB error
 		failIdx := -1
+		customRegFailed := false // the failing entry is a hand-written one whose own registration call failed
 		// a reference registry over the flat list only to notice when the sequence removes one output of a
 		// multi-output registration: what such a registration then means is left open (see C17), and godi's
 		// answer depends on map order, so the built providers are not compared in that case
@@ -270,6 +331,17 @@ func propC20Modules(col *evid.Collector) func(rt *rapid.T) {
 					errB = cb.AddScoped(nil)
 				default:
 					errB = cb.AddTransient(nil)
+				}
+			case "custom":
+				if lf.N.Reg >= 0 {
+					if errB = wb.Register(cb, &wb.Cfg.Regs[lf.N.Reg]); errB == nil {
+						refB.add(wb.Cfg.Regs[lf.N.Reg])
+					} else {
+						customRegFailed = true
+					}
+				}
+				if errB == nil {
+					errB = customEntryError(lf.N.KeyKind)
 				}
 			case "remove":
 				cb.Remove(kit.RType(lf.N.T))
@@ -343,6 +415,13 @@ func propC20Modules(col *evid.Collector) func(rt *rapid.T) {
 			}
 			if a, b := voidKeyRe.ReplaceAllString(cur.Error(), "v#"), voidKeyRe.ReplaceAllString(errB.Error(), "v#"); a != b {
 				f = fail("C20", "cause-reachable", "message", "innermost cause %q differs from the direct call's error %q", a, b)
+				break
+			}
+			if lf := leaves[failIdx]; lf.N.Leaf == "custom" && !customRegFailed {
+				col.Label("custom-entry-error")
+				if !customCauseReachable(errA, lf.N.KeyKind) {
+					f = fail("C20", "cause-reachable", "custom-entry", "the error a hand-written entry returned (%v) is not reachable through errors.Is/As from %v", errB, firstLine(errA))
+				}
 			}
 		}
 		if f == nil {
